@@ -287,3 +287,35 @@ Proof.
   change (find (x_one x) (out_edges E v)) with (find (one x) (outs E v)).
   destruct (find (one x) (outs E v)) as [e|]; [rewrite IH|]; reflexivity.
 Qed.
+
+(* ---- kPathCover rows ---- *)
+Lemma sumq_bin_pos {A} (g : A -> Q) (l : list A) :
+  (forall x, In x l -> bin (g x)) -> (1 <= sumq g l)%Q -> exists x, In x l /\ (g x == 1)%Q.
+Proof.
+  induction l as [|x l IH]; intros Hb Hs; cbn [sumq] in Hs.
+  - exfalso. apply (Qle_not_lt _ _ Hs). reflexivity.
+  - destruct (Hb x (or_introl eq_refl)) as [H0|H1].
+    + destruct IH as (y & Hy & Gy); [intros y Hy; apply Hb; right; exact Hy|rewrite H0 in Hs; lra|].
+      exists y. split; [right; exact Hy|exact Gy].
+    + exists x. split; [left; reflexivity|exact H1].
+Qed.
+
+Theorem kpc_covers (I : path_inst) (ignore : list PathEnc.edge) (a : var -> Q) :
+  sat a (encode_kpc I ignore) ->
+  forall e, In e (g_edges (p_graph I)) -> mem_edge e ignore = false ->
+  exists i, In i (layers (p_k I)) /\ xval a i e = 1%Z.
+Proof.
+  intros [Hc Hr] e He Hig. unfold encode_kpc in Hc, Hr. cbn [cols rows] in Hc, Hr.
+  unfold base_cols in Hc. rewrite Forall_app in Hc. destruct Hc as [Hc _].
+  rewrite Forall_app in Hr. destruct Hr as [_ Hr].
+  assert (R : sat_row a (mkrow (map (fun i => (Edge (fst e) (snd e) i, 1%Q)) (layers (p_k I))) SGe 1%Q)).
+  { apply (sat_rows_in a _ _ Hr). unfold kpc_rows.
+    apply (in_map (fun e => mkrow (map (fun i => (Edge (fst e) (snd e) i, 1%Q)) (layers (p_k I))) SGe 1%Q)).
+    apply filter_In. split; [exact He|rewrite Hig; reflexivity]. }
+  unfold sat_row, mkrow in R. cbn [sns lhs rhs] in R.
+  rewrite (eval_map_const a (fun i => Edge (fst e) (snd e) i) 1%Q) in R. rewrite Qmult_1_l in R.
+  destruct (sumq_bin_pos (fun i => a (Edge (fst e) (snd e) i)) (layers (p_k I))) as (i & Hi & Gi).
+  - intros i Hi. apply (edge_bin (p_graph I) (p_k I) a Hc i e Hi He).
+  - exact R.
+  - exists i. split; [exact Hi|]. unfold xval. apply Qeq_bool_iff in Gi. rewrite Gi. reflexivity.
+Qed.
